@@ -66,7 +66,7 @@ _design_lock = [None]
 def design_session():
     """coq/gen/*.v (the Verilog designs as Coq data) is one shared, mutable directory, and every extracted engine and
     every RTL proof is built from it.  A check therefore holds a SHARED lock on it for its whole life, and the directory
-    is stamped with the identity (path + content hash of the Verilog sources and of the translator) of the tree it was
+    is stamped with the identity (content hash of the Verilog sources and of the translator) of the tree it was
     generated from.  A check whose tree has another identity (a scratch worktree given by HEX_REPO, or /repo after an
     edit) takes the lock EXCLUSIVELY, regenerates, stamps, and only then shares it.  So two runs against different
     trees never see each other's designs, and a design left behind by an earlier run is never judged."""
@@ -75,7 +75,7 @@ def design_session():
     import vl2coq
     os.makedirs(WORK, exist_ok=True)
     srcs = sorted(set(os.path.join(REPO, p) for t in vl2coq.TARGETS.values() for p in t[2]))
-    ident = os.path.realpath(REPO) + ' ' + file_hash([p for p in srcs if os.path.exists(p)] + [os.path.join(ROOT, 'tools', 'vl2coq.py')],
+    ident = file_hash([p for p in srcs if os.path.exists(p)] + [os.path.join(ROOT, 'tools', 'vl2coq.py')],
                                                       '|'.join(p for p in srcs if not os.path.exists(p)))
     stamp = os.path.join(WORK, 'design.stamp')
     f = open(os.path.join(WORK, 'design.lock'), 'w')
